@@ -1305,11 +1305,10 @@ fn main() {
         let Some(p) = gix_glob::parse(&raw) else {
             c.label("parse-none");
             c.key(&(&raw, &text));
-            let blank = raw.iter().all(u8::is_ascii_whitespace) || {
-                let rest = raw.strip_prefix(b"!").unwrap_or(&raw);
-                rest.iter().all(u8::is_ascii_whitespace)
-            };
-            ensure!(c, blank, "gix_glob::parse() returned None for non-blank pattern `{}`", show(&raw));
+            // nothing is left: blank, or only the decorations ('!', anchoring and directory slashes)
+            let rest = raw.strip_prefix(b"!").unwrap_or(&raw);
+            let nothing_left = rest.iter().all(u8::is_ascii_whitespace) || rest.iter().all(|b| *b == b'/');
+            ensure!(c, nothing_left, "gix_glob::parse() returned None for pattern `{}`", show(&raw));
             return;
         };
         let nfeat = label_tokens(c, &toks);
